@@ -315,6 +315,34 @@ func checkTriSet(r *ev.Run, set []int, rayStride int) {
 			}
 		}
 	}
+	// balls that touch a triangle corner exactly, from an axis direction: centre = corner +- r e_axis with dyadic r,
+	// so that the squared distance to the corner - and to the bounding box whenever the corner is extreme in that
+	// direction - equals r*r without rounding (tangent balls must not be pruned)
+	for _, t := range tris {
+		for k := 0; k < 3; k++ {
+			for ax := 0; ax < 3; ax++ {
+				for _, sg := range []float64{1, -1} {
+					for _, rad := range []float64{0.5, 1} {
+						var off [3]float64
+						off[ax] = sg * rad
+						c := t[k].Add(xyz(off[0], off[1], off[2]))
+						want := false
+						for _, t2 := range tris {
+							if t2.SphereCollision(c, rad) {
+								want = true
+							}
+						}
+						for _, ix := range idx {
+							r.Eval(1)
+							if got := ix.mc.SphereCollision(c, rad); got != want {
+								viol(ix.name, "SphereCollision", fmt.Sprintf("ball %v r=%v touching corner %v: index %v, linear scan %v", c, rad, t[k], got, want), arr(c), []float64{rad})
+							}
+						}
+					}
+				}
+			}
+		}
+	}
 	for _, s := range segs {
 		want := false
 		for _, t := range tris {
